@@ -45,6 +45,7 @@ impl<'a> StatementEvaluator<'a> {
             Some(Token::Read) => self.evaluate_read_statement(),
             Some(Token::Remark(_)) => Ok(()),
             Some(Token::Colon) => Ok(()),
+            Some(Token::Else) => self.evaluate_else_after_resumed_then_statement(),
             Some(Token::Data(_)) => Ok(()),
             Some(Token::Let) => self.evaluate_let_statement(),
             Some(Token::Symbol(symbol)) => self.evaluate_assignment_statement(symbol),
@@ -108,6 +109,23 @@ impl<'a> StatementEvaluator<'a> {
                 }
             }
             Ok(())
+        }
+    }
+
+    /// A statement can only start at an ELSE when the single statement of a
+    /// `THEN` clause transferred or suspended control (GOSUB, FOR, INPUT) and
+    /// control has now come back to just after it (RETURN, NEXT, the reply).
+    /// The IF that selected the THEN statement is no longer on the native
+    /// stack to skip its else clause, so we do that here.
+    fn evaluate_else_after_resumed_then_statement(&mut self) -> Result<(), TracedInterpreterError> {
+        if self.program().prev_token_ends_single_then_statement() {
+            // Skip the else clause, and anything else on this line.
+            self.program().discard_remaining_tokens();
+            Ok(())
+        } else {
+            // An else clause isn't supported when the then clause has
+            // multiple statements.
+            Err(SyntaxError::UnexpectedToken.into())
         }
     }
 
